@@ -168,13 +168,15 @@ def h_pair(hx, docname, t1, t2):
     hx.cover("pair")
 
 
-def h_multi(hx, names, tlen):
+def h_multi(hx, names, tlen, empty=None):
     exp = []
     buf = b""
     for i, docname in enumerate(names):
         docid = getattr(MBXMLDocumentIdentifier, docname)
         cfg = elements_of(docid)
         tids = [t for t in (0x22, 0x31 if 0x31 in cfg else 0x36) if t in cfg]
+        if empty is not None and i in empty:
+            tids = []                      # a document without tokens (sequences of 0..n tokens)
         body = b""
         toks = []
         for j, tid in enumerate(tids):
@@ -231,6 +233,18 @@ def h_api(hx, docname, tid, is_request):
     doc.parts.append(tok)
     x = MBXML.as_bytes(doc)
     check_docs(hx, x, [(docid, [(tid, val, [])], None, x)], "%s assembled through get_token(0x%02x)" % (docname, tid))
+    # the same token looked up twice, with two independent values, in a second document: each look-up yields its own token
+    _tb2, val2, _a2 = token_value(hx, cfg, tid, "w")
+    doc2 = LRRP(document_id=docid)
+    st1, k1 = hx.guard(doc2.get_token, tid, val, {}, is_request)
+    st2, k2 = hx.guard(doc2.get_token, tid, val2, {}, is_request)
+    if st1 == "ok" and st2 == "ok":
+        doc2.parts.append(k1)
+        doc2.parts.append(k2)
+        x2 = MBXML.as_bytes(doc2)
+        check_docs(hx, x2, [(docid, [(tid, val, []), (tid, val2, [])], None, x2)], "%s assembled through two look-ups of 0x%02x with independent values" % (docname, tid))
+        x1b = MBXML.as_bytes(doc)
+        hx.prove(x1b == x, "%s: the document assembled earlier still serialises to the same bytes after further look-ups" % docname)
     hx.cover("api")
 
 
@@ -274,6 +288,12 @@ def cases(tier, seed):
     for names, tl in multis:
         out.append(Case("multi-%s-t%d" % ("+".join(n.replace("LRRP_", "") for n in names), tl), "h_multi", dict(names=names, tlen=tl), covers=["multi"], budget_s=600,
                         opts=dict(max_paths=6000, max_violations=6), bounds="%d documents in one buffer, inline tables of %d octets where the id has a table" % (len(names), tl)))
+    for names, tl in multis[:2]:
+        for empty in ([0], [len(names) - 1], list(range(len(names)))):
+            out.append(Case("multi-%s-t%d-empty%s" % ("+".join(n.replace("LRRP_", "") for n in names), tl, "".join(str(e) for e in empty)), "h_multi", dict(names=names, tlen=tl, empty=empty),
+                            covers=["multi"], budget_s=600, opts=dict(max_paths=6000, max_violations=6),
+                            bounds="%d documents in one buffer, document(s) %s without any token" % (len(names), empty)))
+    out.append(Case("single-empty-document", "h_multi", dict(names=["LRRP_ImmediateLocationRequest_NCDT"], tlen=0, empty=[0]), covers=["multi"], budget_s=120, bounds="one document without tokens"))
     out.append(Case("inherited-table", "h_inherit", {}, covers=["inherit"], budget_s=300, bounds="two documents, the second with CDT_LEN = 1; table and token values symbolic"))
     for dn, req in (("LRRP_TriggeredLocationRequest_NCDT", True), ("LRRP_ImmediateLocationReport_NCDT", False)):
         cfg = elements_of(getattr(MBXMLDocumentIdentifier, dn))
